@@ -169,9 +169,11 @@ impl BaseGrid {
         let dlat = header[4].copysign(lat_s - lat_n);
         let dlon = header[5].copysign(lon_e - lon_w);
         let bands = header[6] as usize;
-        let rows = ((lat_s - lat_n) / dlat + 1.5).floor() as usize;
-        let cols = ((lon_e - lon_w) / dlon + 1.5).floor() as usize;
-        let elements = rows * cols * bands;
+        let (rows, cols) = grid_dimensions(header)?;
+        let elements = rows
+            .checked_mul(cols)
+            .and_then(|n| n.checked_mul(bands))
+            .ok_or(Error::General("Malformed grid"))?;
 
         let offset = offset.unwrap_or(0);
 
@@ -200,6 +202,22 @@ impl BaseGrid {
         let (header, grid) = gravsoft_grid_reader(buf)?;
         BaseGrid::plain(&header, Some(&grid), None)
     }
+}
+
+// The number of rows and columns of a grid with the given header (the first six
+// elements being lat_n, lat_s, lon_w, lon_e, dlat, dlon). The interpolation needs
+// finite borders and spacing, and at least two rows and two columns
+fn grid_dimensions(header: &[f64]) -> Result<(usize, usize), Error> {
+    let (lat_n, lat_s, lon_w, lon_e) = (header[0], header[1], header[2], header[3]);
+    let dlat = header[4].copysign(lat_s - lat_n);
+    let dlon = header[5].copysign(lon_e - lon_w);
+    let rows = ((lat_s - lat_n) / dlat + 1.5).floor();
+    let cols = ((lon_e - lon_w) / dlon + 1.5).floor();
+    let finite = header.iter().take(6).all(|h| h.is_finite());
+    if !finite || !(2.0..1e9).contains(&rows) || !(2.0..1e9).contains(&cols) {
+        return Err(Error::General("Malformed grid"));
+    }
+    Ok((rows as usize, cols as usize))
 }
 
 // If the Gravsoft grid appears to be in angular units, convert it to radians
@@ -278,19 +296,11 @@ fn gravsoft_grid_reader(buf: &[u8]) -> Result<(Vec<f64>, Vec<f32>), Error> {
     header.swap(0, 1);
 
     // Count the number of bands
-    let lat_n = header[0];
-    let lat_s = header[1];
-    let lon_w = header[2];
-    let lon_e = header[3];
-
-    // The Gravsoft header has inverted sign for dlat. We force
-    // the two deltas to have signs compatible with the grid
-    // organization
-    let dlat = header[4].copysign(lat_s - lat_n);
-    let dlon = header[5].copysign(lon_e - lon_w);
-    let rows = ((lat_s - lat_n) / dlat + 1.5).floor() as usize;
-    let cols = ((lon_e - lon_w) / dlon + 1.5).floor() as usize;
-    let bands = grid.len() / (rows * cols);
+    let (rows, cols) = grid_dimensions(&header)?;
+    let nodes = rows
+        .checked_mul(cols)
+        .ok_or(Error::General("Malformed grid"))?;
+    let bands = grid.len() / nodes;
     if (rows * cols * bands) > grid.len() || bands < 1 {
         return Err(Error::General("Incomplete Gravsoft grid"));
     }
